@@ -198,7 +198,8 @@ PROPS["C17"] = {
 
 PROPS["C06"] = {
     "title": "Every module built with the Builder survives assemble-then-load unchanged",
-    "units": {"quick": ["builder_sections", "builder_core"], "thorough": ["builder_sections", "builder_core", "loader", "assemble"]},
+    "units": {"quick": ["builder_sections", "builder_core", "loader"], "thorough": ["builder_sections", "builder_core", "loader", "assemble"]},
+    "only_items": {"loader": [r"Loader::consume_instruction"]},
     "level": "proof",
     "technique": "one Verus obligation per instruction-emitting Builder method (1147): the place its real text puts the instruction equals the loader's proved dispatch for that opcode; Builder::module bound/version contract; hand-written methods' emitted instruction shapes",
     "design_ref": "DESIGN.md §4 C06",
